@@ -7,7 +7,7 @@ def groups(tier):
                   clause='compute_plan (the provider-count statements, lowered as a slice): providers = min(candidates, shards, max(target replicas, '
                          'min(max(minimum providers, threshold), candidates, shards))) for every configuration, threshold, candidate and shard count', **K),
             Group('plan.distribute', entry='h_distribute', unwind=t + 2, unwind_by={'h_distribute': t + 2}, kind='bounded', stub=['KademliaTable__closest_peers'],
-                  defines=['CXX_FIXED_STORAGE', f'CXX_VEC_CAP={t + 2}', 'P=3', f'T={t}'], bound=f'at most 3 providers and {t} shards (all share labels)',
+                  defines=['CXX_FIXED_STORAGE', f'CXX_VEC_CAP={2 * t + 4}', 'P=3', f'T={t}'], bound=f'at most 3 providers and {t} shards (all share labels)',
                   clause='compute_plan (the distribution loop, lowered as a slice): every shard goes to exactly one provider, every provider gets at least one, '
                          'counts differ by at most one', **K),
             Group('plan.candidates', entry='h_candidates', unwind=6, unwind_by={'cxx_memcmp': 34, 'cxx_copy_u8': 34, 'h_candidates': 6, 'h_distribute': 12}, kind='bounded', stub=['KademliaTable__closest_peers'],
